@@ -382,6 +382,7 @@ void generate(Program &prog, dsim::Config &cfg, dsim::Rng &pr, dsim::Rng &cr, in
   cfg.tso = cr.chance(1, 4);
   static const int kDrain[] = {1, 5, 25};
   cfg.tso_drain_percent = kDrain[cr.below(3)];
+  cfg.weak_stores = cr.chance(1, 2);  // half of the buffered runs: only release-class operations drain the buffer
 }
 
 std::string render(const Program &p)
